@@ -26,6 +26,9 @@ Single(tol) ==
 
 Init == \E tol \in Tols :
           \/ \E m \in Single(tol) : m > 0 /\ case = [ms |-> <<m>>, tol |-> tol]
+          \* the boundary masses of one tolerance judged under every other tolerance (a mass that is an element under a loose
+          \* tolerance is none under a strict one; the harness runs the loose one first, in the same process)
+          \/ \E other \in Tols \ {tol} : \E m \in Single(other) : m > 0 /\ case = [ms |-> <<m>>, tol |-> tol]
           \/ \E i \in Idx : case = [ms |-> <<Table[i].m, 12010700, Table[i].m + 5 * tol>>, tol |-> tol]       \* mixed list
           \/ \E i \in Idx : i + 2 <= Len(Table) /\ case = [ms |-> <<Table[i+2].m, Table[i].m, Table[i+1].m>>, tol |-> tol]
 Next == UNCHANGED case
